@@ -66,6 +66,7 @@ class Tracer:
         self.installed = False
         self.deque_counter = 0
         self.depth = 0
+        self.pool_seq = 0
         self._orig = {}
         self._wfile = None
         self._wpid = None
@@ -90,6 +91,7 @@ class Tracer:
         self.events = []
         self.deque_counter = 0
         self.depth = 0
+        self.pool_seq = 0
         self.parent_pid = os.getpid()
         self.logdir = logdir
         if logdir is not None:
@@ -298,8 +300,9 @@ class Tracer:
         class TracingPool(OrigPool):
             def map_async(self_, func, iterable, chunksize=None, callback=None, error_callback=None):
                 items = list(iterable)
-                tr.log(e="pool", w=int(self_._processes), n=len(items))
-                return OrigPool.map_async(self_, TaskWrap(func), items, chunksize, callback, error_callback)
+                tr.pool_seq += 1
+                tr.log(e="pool", w=int(self_._processes), n=len(items), seq=tr.pool_seq)
+                return OrigPool.map_async(self_, TaskWrap(func, tr.pool_seq), items, chunksize, callback, error_callback)
         pmp.Pool = TracingPool
 
 
@@ -344,11 +347,12 @@ class Probe:
 class TaskWrap:
     """callable pickled to the workers instead of the engine's closure; logs the iteration index"""
 
-    def __init__(self, func):
+    def __init__(self, func, seq=0):
         self.func = func
+        self.seq = seq
 
     def __call__(self, it):
-        TR.log(e="task", it=int(it), obj=id(self))
+        TR.log(e="task", it=int(it), seq=self.seq, obj=id(self))
         return self.func(it)
 
 
@@ -402,7 +406,7 @@ def _rebuild_deque(items, cid, tags, copied=False):
     d.cid = cid
     d.tags = tags
     if cid:
-        TR.log(e="copy" if copied else "arrive", cid=cid, n=len(items), obj=id(d))
+        TR.log(e="copy" if copied else "arrive", cid=cid, n=len(items), first=(tags[0] if tags else 0), obj=id(d))
     return d
 
 
@@ -428,6 +432,8 @@ class Canon:
         self.chunk_starts: list[int] = []
         self.seeds: list[int] = []
         self.gaps: list[int] = []
+        self.chunk_arrivals: list[list] = []   # per chunk: [(cid, rows, first remaining row)] of the deque copies that arrived
+        self.pools: list[dict] = []            # parent: one entry per Pool.map_async, with the statistics written by its callback
         self.uses: list[tuple] = []          # (value compared by a coupling decision, its position or None, sample number)
 
 
@@ -560,16 +566,22 @@ def canonical(events: list[dict], ambient: int = AMBIENT, rowpos: dict | None = 
             c.samples.append(cur)
             cur = None
         elif e == "stat":
+            if c.pools:
+                c.pools[-1]["stats"].append((ev["lvl"], ev["idx"], tuple(ev["val"])))
             if c.samples and c.samples[-1]["idx"] is None:
                 sm = c.samples[-1]
                 sm.update(lvl=ev["lvl"], idx=ev["idx"], val=ev["val"])
                 c.events[sm["evpos"]][1] = ev["lvl"]
         elif e == "task":
-            task_it = ev["it"]
+            task_it = (ev.get("seq", 0), ev["it"])
         elif e == "arrive":
             if last_arrive_sample != len(c.samples):
                 c.chunk_starts.append(len(c.samples))
+                c.chunk_arrivals.append([])
                 last_arrive_sample = len(c.samples)
+            c.chunk_arrivals[-1].append((ev["cid"], ev["n"], ev.get("first", 0)))
+        elif e == "pool":
+            c.pools.append({"seq": ev.get("seq", 0), "n": ev["n"], "stats": []})
     if pending_seed is not None:
         c.problems.append("np.random.seed not followed by random.seed")
     if cur is not None:
